@@ -2087,8 +2087,9 @@ class MPO:
         mps = self.to_mps()
         trace = mps.scalar_product(identity_mps)
 
-        # Checks if trace is not a singular values for partial trace
-        return not np.round(np.abs(trace), 1) / 2**self.length < fidelity
+        # Normalised overlap |tr(U1^dagger U2)| / 2^n against the requested fidelity; the allowance only absorbs the
+        # numerical noise of the SVD re-splitting (rounding |trace| to one decimal accepted overlaps up to 0.05/2^n short)
+        return bool(np.abs(trace) / 2**self.length >= fidelity - 1e-9)
 
     @classmethod
     def _parse_pauli_string(cls, spec: str) -> dict[int, str]:
